@@ -78,6 +78,24 @@ func main() {
 				return true
 			})
 		}
+		if *mode == "reorder" {
+			// reverse the order of the top-level declarations that follow the imports (comments are dropped from the
+			// file so that they cannot end up inside another declaration)
+			f.Comments = nil
+			var head, rest []ast.Decl
+			for _, d := range f.Decls {
+				if gd, ok := d.(*ast.GenDecl); ok && gd.Tok == token.IMPORT {
+					head = append(head, d)
+				} else {
+					rest = append(rest, d)
+				}
+			}
+			for i, j := 0, len(rest)-1; i < j; i, j = i+1, j-1 {
+				rest[i], rest[j] = rest[j], rest[i]
+			}
+			f.Decls = append(head, rest...)
+			renamed += len(rest)
+		}
 		if *mode == "invertif" {
 			ast.Inspect(f, func(n ast.Node) bool {
 				is, ok := n.(*ast.IfStmt)
